@@ -14,13 +14,16 @@
   the gate's refusals, the verdicts of every version-1 command and of the seven version-5
   commands that carry no transaction or block, and — through both validation stages — the verdicts
   of version-5 `sign` (`sign_v5_conform`, `Proofs/ClassifySign.lean`) are the ones `Spec.C02.judge`
-  prescribes.  The remaining fields (blocks, brothers of advanceBlockchain / updateAncestorBlock,
-  where F-02b is a proved counterexample) are covered by the correspondence stream with the oracle.
+  prescribes; for advanceBlockchain / updateAncestorBlock (`blocks_commands_conform`,
+  `Proofs/ClassifyBlocks.lean`) every refusal is the documents', and the only acceptances they forbid
+  are exactly those of F-02b.  So the full statement is proved for every request of both versions up
+  to the one recorded finding (and up to the device contact of accepted requests, which C03 / C11 own).
 -/
 import PowHsm.Spec.C02
 import PowHsm.Proofs.Monad
 import PowHsm.Proofs.Classify
 import PowHsm.Proofs.ClassifySign
+import PowHsm.Proofs.ClassifyBlocks
 namespace PowHsm
 namespace Props.C02
 open Ledger Comm Spec Spec.C02
@@ -153,6 +156,66 @@ theorem sign_v5_conform (hs : Dongle.Hashes) (kvs : List (String × Json)) (w : 
     simp only [List.any_eq_false, beq_iff_eq]
     intro cz hcz
     exact this cz hcz
+
+/-- **`advanceBlockchain` and `updateAncestorBlock`, for every JSON object**: a refusal carries -204 /
+    -205 for a `blocks` / `brothers` value the documents do not call valid, reaches no device and
+    satisfies the oracle; and the ONLY acceptances the documents forbid are those of the known finding
+    F-02b — a `blocks` member that is a non-empty string but not hex (`Classify.NotHexMember`).
+    Together with `gate_refusals_conform`, `simple_commands_conform` and `sign_v5_conform` this settles
+    the classification of every request of both protocol versions. -/
+theorem blocks_commands_conform (hs : Dongle.Hashes) (kvs : List (String × Json)) (w : World) (name : String)
+    (hg : gate (codes .v5) kvs = .ok name)
+    (hn : name = "advanceBlockchain" ∨ name = "updateAncestorBlock") :
+    (∀ e, validateCmd .v5 name kvs = .error e →
+      Rejected (handleRequest .v5 hs (.obj kvs) w) w e ∧
+      allowedObs .v5 (.obj kvs) (Classify.refusalObs e w.commIssue) = true) ∧
+    (∀ p, validateCmd .v5 name kvs = .ok p → (judge .v5 (.obj kvs)).2 = true →
+      ∃ bs, Json.lookup kvs "blocks" = some (.arr bs) ∧ ∃ b ∈ bs, Classify.NotHexMember b) := by
+  obtain ⟨_, _, hmust, hmay⟩ := Classify.gate_pass .v5 kvs name hg
+  rcases hn with rfl | rfl
+  · obtain ⟨href, hacc⟩ := Classify.advance_classified kvs
+    refine ⟨fun e he => ?_, fun p hp hm => ?_⟩
+    · have hv : validateAdvance (codes .v5) kvs = e ∧ e < 0 := by
+        simp only [validateCmd] at he
+        split at he
+        · injection he with he; rename_i hneg; exact ⟨he, he ▸ hneg⟩
+        · cases he
+      obtain ⟨z, hmem, hz, _⟩ := href (by rw [hv.1]; omega)
+      rw [hv.1] at hmem
+      exact ⟨(rejected_no_contact .v5 hs kvs w).2 _ e hg he,
+        Classify.allowed_of_refusal .v5 _ e _ (by omega) (hmay e z hmem hz)⟩
+    · have hv : validateAdvance (codes .v5) kvs = 0 := by
+        simp only [validateCmd] at hp
+        split at hp
+        · cases hp
+        · rename_i hnn
+          rcases Classical.em (validateAdvance (codes .v5) kvs = 0) with h0 | h0
+          · exact h0
+          · obtain ⟨_, _, _, hneg⟩ := href h0; exact absurd hneg hnn
+      rw [hmust] at hm
+      exact hacc hv hm
+  · obtain ⟨href, hacc⟩ := Classify.update_classified kvs
+    refine ⟨fun e he => ?_, fun p hp hm => ?_⟩
+    · have hv : validateUpdate (codes .v5) kvs = e ∧ e < 0 := by
+        simp only [validateCmd] at he
+        split at he
+        · injection he with he; rename_i hneg; exact ⟨he, he ▸ hneg⟩
+        · cases he
+      obtain ⟨hcode, z, hmem, hz⟩ := href (by rw [hv.1]; omega)
+      have he204 : e = -204 := by rw [← hv.1, hcode]
+      subst he204
+      exact ⟨(rejected_no_contact .v5 hs kvs w).2 _ _ hg he,
+        Classify.allowed_of_refusal .v5 _ _ _ (by decide) (hmay _ z hmem hz)⟩
+    · have hv : validateUpdate (codes .v5) kvs = 0 := by
+        simp only [validateCmd] at hp
+        split at hp
+        · cases hp
+        · rename_i hnn
+          rcases Classical.em (validateUpdate (codes .v5) kvs = 0) with h0 | h0
+          · exact h0
+          · obtain ⟨hcode, _⟩ := href h0; rw [hcode] at hnn; exact absurd (by decide) hnn
+      rw [hmust] at hm
+      exact hacc hv hm
 
 /-- non-vacuity of `sign_v5_conform`: a `sign` without a message is refused with -102, one whose `auth`
     is not an object with -101 (the first stage checks `auth` before the message) -/
